@@ -40,7 +40,10 @@ MANIFEST = {
             'random multi-fault plans are executed; planned faults that never '
             'triggered do not count. Discovery is faulted on every request it '
             'makes for each device kind. Enumerated for single faults per '
-            'script variant, sampled for multi-fault plans.',
+            'script variant, sampled for multi-fault plans.'
+            ' Names that exist as another kind of thing (a location asked'
+            ' for as a group, a group as a location, a light as either) c'
+            'ount as unknown.',
     'note': 'Trusted: simulated devices and fault plans; "does not answer" == '
             'lifxlan WorkflowException; a logical request ends on success or '
             'after three consecutive failed attempts. A failed `get` leaves '
